@@ -185,10 +185,25 @@ def classify(src, out):
         return "other", k
     pos = len(src[:k].encode("utf-8"))
     nxt = next((t for t in toks if t.end > pos), None)
-    if nxt is not None and nxt.kind == "istring" and nxt.text.startswith(b"}") and nxt.start >= pos \
-            and len(out) < len(src):
+    if nxt is not None and nxt.kind == "istring" and nxt.text.startswith(b"}") and nxt.start >= pos:
         return "dropped:trivia-before-interpolation-closing-brace", k
     return "other", k
+
+
+NUMBER_RE = None
+
+
+def strict_numbers(src):
+    """shrinking must not glue a number to a following word (`3e0if`), which full_moon accepts but Lua does not"""
+    import re
+    global NUMBER_RE
+    if NUMBER_RE is None:
+        NUMBER_RE = re.compile(rb"^(0[xX][0-9a-fA-F_]+|0[bB][01_]+|([0-9][0-9_]*(\.[0-9_]*)?|\.[0-9][0-9_]*)([eE][+-]?[0-9][0-9_]*)?)$")
+    try:
+        toks, _ = L.lex(src.encode("utf-8"))
+    except L.LexError:
+        return False
+    return all(NUMBER_RE.match(t.text) for t in toks if t.kind == "number")
 
 
 def make_sources(rng, tier):
@@ -289,6 +304,8 @@ def run(ctx):
     # ---- verdicts per class of difference; the smallest source of each class is shrunk for the replay
     def still(key):
         def fails(candidate):
+            if not strict_numbers(candidate):
+                return False
             rr = run_harness([{"id": 0, "config": NO_RULES, "src": candidate}])[0]
             return rr["ok"] and rr["out"] != candidate and classify(candidate, rr["out"])[0] == key
         return fails
